@@ -3,7 +3,7 @@
 paths keep no lock, PROG receive loops make progress)."""
 from collections import defaultdict
 
-from .. import dispatch, flow, intervals, locks, rules
+from .. import pathwalk, dispatch, flow, intervals, locks, rules
 from ..build import AnalysisBroken
 from . import c02
 
@@ -309,6 +309,18 @@ def run(chk, w):
                             ci = g.resolve(rules.strip_casts(g, cnd["a"]))
                             if (src and src[0] == "alloca" and src[1] == slot) or (ci is not None and ci.id == c.id):
                                 ok = True
+                    if not ok:
+                        # the NULL test may be recorded in a status variable before the pointer is used: decide on the paths
+                        def est(br, succ, facts, g=g, slot=slot, c=c):
+                            if br.op != "br" or "cond" not in br.d or br["t"] == br.get("f"):
+                                return False
+                            cnd_ = g.resolve(br["cond"])
+                            if cnd_ is not None and cnd_.op == "icmp" and cnd_["b"].get("k") == "null" and cnd_["pred"] in ("eq", "ne"):
+                                src_ = rules.load_source(g, cnd_["a"])
+                                if src_ and src_[0] == "alloca" and src_[1] == slot:
+                                    return (succ == br["t"]) == (cnd_["pred"] == "ne")
+                            return False
+                        ok = pathwalk.guard_on_all_paths(g, i, est) is True
                     if ok:
                         chk.ok("C12-NUL", 1)
                     elif first_bad is None:
